@@ -59,6 +59,16 @@ def rand_text(rng: random.Random, maxlen: int = 8) -> str:
     return s
 
 
+def rng_save(rng: random.Random):
+    """full generator state: the PRNG state and the pool of re-usable strings"""
+    return (rng.getstate(), list(getattr(rng, "_recent_texts", []) or []))
+
+
+def rng_restore(rng: random.Random, st) -> None:
+    rng.setstate(st[0])
+    rng._recent_texts = list(st[1])
+
+
 def _fresh_text(rng: random.Random, maxlen: int = 8) -> str:
     r = rng.random()
     n = rng.randrange(0, maxlen + 1)
